@@ -35,7 +35,8 @@ class Spec:
             o.update(max_targets=14, max_ops=30)
             t.update(max_ops=30)
         from hypothesis import strategies as st
-        return st.one_of(gen.histories(o), gen.histories(t))
+        # third family: chains with two or more checksummed levels (nested out-of-band settles)
+        return st.one_of(gen.histories(o), gen.histories(t), gen.histories(o), gen.histories(t), gen.nested_chains())
 
     def run_case(self, case, tier):
         return hist.HistoryRunner(case, self.checks, tag="c02").run()
